@@ -367,7 +367,7 @@ Hint Resolve frame_tight_rows : frm.
 
 (* ---------------------------------------------------------------- Tight, fixes 1, 2, 3 (commits 0870444, 01fc326, 6de7bdd) *)
 Definition DT (rx ry rw rh : Z) : Z -> Z -> Z -> Prop := fun W H fx =>
-  Z.testbit fx 1 = true /\ Z.testbit fx 2 = true /\ Z.testbit fx 3 = true /\ rx + rw <= W /\ ry + rh <= H.
+  Z.testbit fx 1 = true /\ Z.testbit fx 2 = true /\ Z.testbit fx 3 = true /\ Z.testbit fx 10 = true /\ rx + rw <= W /\ ry + rh <= H.
 
 Lemma dimfix_fold_zact c0 s :
   dimfix s (fold_left (fun s i => if flag c0 (2 ^ i) then zact_set s (i + 1) false else s) [0; 1; 2; 3] s).
@@ -398,8 +398,8 @@ Lemma safe_dec_tight rx ry rw rh : 0 <= rx -> 0 <= ry -> 0 <= rw -> 0 <= rh ->
   safeD (DT rx ry rw rh) (fun _ => True) (dec_tight rx ry rw rh).
 Proof.
   intros Hx Hy Hw Hh. unfold dec_tight. apply safeD_bind_get. intros s Hs HD ts.
-  destruct HD as (F1 & F2 & F3 & HW & HH). unfold fixed. rewrite F1, F2, F3.
-  assert (HD : DT rx ry rw rh (c_w s) (c_h s) (c_fix s)) by (unfold DT; auto).
+  destruct HD as (F1 & F2 & F3 & F10 & HW & HH). unfold fixed. rewrite F1, F2, F3, F10. cbn [negb]. rewrite Bool.andb_false_r.
+  assert (HD : DT rx ry rw rh (c_w s) (c_h s) (c_fix s)) by (unfold DT; repeat split; assumption).
   destruct Hs as [Hwf [Hb1 Hb2]].
   set (f := c_fmt s) in *. set (bypp := bypp_of s) in *.
   set (bits0 := if is888 f then 24 else f_bpp f).
@@ -410,7 +410,7 @@ Proof.
     - replace (rw * 24) with (rw * 3 * 8) by lia. apply div8.
     - rewrite Hb2. replace (rw * (8 * bypp)) with (rw * bypp * 8) by lia. apply div8. }
   assert (Hdim : forall W H fx, DT rx ry rw rh W H fx -> (fun W H (_ : Z) => rx + rw <= W /\ ry + rh <= H) W H fx).
-  { intros W H fx (_ & _ & _ & A & B). split; assumption. }
+  { intros W H fx (_ & _ & _ & _ & A & B). split; assumption. }
   match goal with |- match ?m s ts with _ => _ end =>
     assert (G : safeD (DT rx ry rw rh) (fun _ => True) m); [|exact (G s ts (conj Hwf (conj Hb1 Hb2)) HD)] end.
   eapply safeD_bind; [auto with snd|auto with frm|apply safeT_rd_u8|]. intros c0 _.
@@ -477,6 +477,7 @@ Proof.
   destruct (Z.ltb_spec (rh * rowsize) cTIGHT_MIN_TO_COMPRESS).
   { eapply safeD_bind; [auto with snd|auto with frm|apply safeD_of_safe; apply safe_rd_buf; unfold cTIGHT_MIN_TO_COMPRESS, cRFB_BUFFER_SIZE in *; lia|].
     intros b _.
+    eapply (safeD_bind _ (fun _ => True)); [destruct flt; auto with snd|destruct flt; frm|destruct flt; apply safeD_ret; exact I|]. intros _ _.
     eapply safeD_bind; [auto with snd|auto with frm|apply Hrows; lia|]. intros; apply safeD_ret; exact I. }
   destruct nozlib.
   { eapply safeD_bind; [auto with snd|frm|apply safeD_of_safe; apply clean_safe; unfold rd_compact, rd_compact_aux; cln|].
@@ -502,7 +503,7 @@ Qed.
 
 (* ---------------------------------------------------------------- the rectangle dispatcher of the repaired flow *)
 Definition DF : Z -> Z -> Z -> Prop := fun _ _ fx =>
-  Z.testbit fx 0 = true /\ Z.testbit fx 1 = true /\ Z.testbit fx 2 = true /\ Z.testbit fx 3 = true /\ Z.testbit fx 9 = true.
+  Z.testbit fx 0 = true /\ Z.testbit fx 1 = true /\ Z.testbit fx 2 = true /\ Z.testbit fx 3 = true /\ Z.testbit fx 9 = true /\ Z.testbit fx 10 = true.
 Definition fixed0123 (s : cst) : Prop := DF (c_w s) (c_h s) (c_fix s).
 
 (* the encodings whose repaired decoders are not covered by THIS file: TRLE, ZRLE (see CliSafeZ.v) *)
@@ -550,12 +551,12 @@ Proof.
   destruct (enc =? cE_Ultra); [destruct ok; apply safeD_of_safe; [apply safe_dec_ultra; assumption|apply safe_ret; exact I]|].
   destruct (Z.eqb_spec enc cE_UltraZip).
   { destruct ok; [|apply safeD_ret; exact I].
-    eapply safeD_weaken; [|apply safe_dec_ultrazip]. intros W H fx [(F0 & _ & _ & _ & F9) _]. split; assumption. }
+    eapply safeD_weaken; [|apply safe_dec_ultrazip]. intros W H fx [(F0 & _ & _ & _ & F9 & _) _]. split; assumption. }
   destruct (enc =? cE_Zlib); [destruct ok; apply safeD_of_safe; [apply safe_dec_zlib; assumption|apply safe_ret; exact I]|].
   destruct (Z.eqb_spec enc cE_Tight).
   { destruct ok; [|apply safeD_ret; exact I].
     eapply safeD_weaken; [|apply safe_dec_tight; assumption].
-    intros W H fx [(_ & F1 & F2 & F3 & _) [-> ->]]. unfold DT. repeat split; auto.
+    intros W H fx [(_ & F1 & F2 & F3 & _ & F10) [-> ->]]. unfold DT. repeat split; auto.
     - destruct (Z.eqb_spec enc cE_UltraZip); [contradiction|]. cbn [negb andb] in Echk. lia.
     - destruct (Z.eqb_spec enc cE_UltraZip); [contradiction|]. cbn [negb andb] in Echk. lia. }
   destruct (enc =? cE_QemuExtendedKeyEvent); [apply safeD_ret; exact I|apply safeD_fail].
